@@ -80,3 +80,14 @@ PROPS["C08"] = Prop(
     nontrivial=lambda s, impl: " n=0 " not in s,
 )
 PARAMS["C08"] = {"rule": "generate, Default, Clone, map x4 receiver forms, fold x4 forms, zip x10 form pairs, each for drop-tracked and plain (no-drop) element types on either side (selecting the needs_drop branches), N in {0..8,16,17,33}; the ordered call log (call index, arguments) and the result are compared. Non-trivial = N > 0."}
+
+PROPS["C09"] = Prop(
+    "C09", ["GA.Props.C09"],
+    [Engine("seq", scen.seq, sig=lambda l: l.split()[0] + "/" + l.split()[-1])],
+    trusted=[KERNEL, TRANSLATOR, HARNESS,
+             "modelled, not verified: ptr::read/ptr::write/ptr::copy/slice::swap semantics; the result types' lengths (Add1/Sub1/Diff/Sum) are typenum's; layout facts come from C01"],
+    assumptions=["element values are abstracted to ids; blocks are addressed in whole elements (C01 gives stride = size_of::<T>())",
+                 "correspondence covers N in {0..8,16,17,33}; theorems cover every N, K, M, index"],
+    nontrivial=lambda s, impl: " n=0 " not in s,
+)
+PARAMS["C09"] = {"rule": "append, prepend, pop_back, pop_front, split at every K <= N (owned, & and &mut), concat for every N + M <= 8, remove / swap_remove at every index 0..=N+1 and usize::MAX, for N in 0..=8 plus 16/17/33, element kinds of size 0 (drop-counted), 1, 8, 24 bytes and a drop-tracked one; compared with the Vec operation, pointer extents of the reference split, and per-element drop counts."}
